@@ -120,6 +120,28 @@ where
     }
 }
 
+#[cfg(lora_rs_verif)]
+impl<R, RNG, const N: usize, const D: usize> Device<R, RNG, N, D>
+where
+    R: PhyRxTx + Timings,
+    RNG: RngCore,
+{
+    /// Verification hook: MAC snapshot.
+    pub fn verif_snapshot(&self) -> crate::verif::VerifMac {
+        self.shared.mac.verif_snapshot()
+    }
+
+    /// Verification hook: front-end state machine snapshot.
+    pub fn verif_state(&self) -> crate::verif::VerifNbState {
+        self.state.verif_state()
+    }
+
+    /// Verification hook: number of downlinks queued for `take_downlink`.
+    pub fn verif_queued_downlinks(&self) -> usize {
+        self.shared.downlink.len()
+    }
+}
+
 pub(crate) struct Shared<R: PhyRxTx + Timings, RNG: RngCore, const N: usize, const D: usize> {
     pub(crate) radio: R,
     pub(crate) rng: RNG,
